@@ -1281,6 +1281,9 @@ PROPS["C15"] = dict(
     module="TmcgProps.C15",
     areas=[("dkg", {"quick": 10, "thorough": 60}, ["--kind", "gen", "--par", "4"], "fast"),
            ("dkg", {"quick": 8, "thorough": 40}, ["--kind", "vss", "--par", "4"], "fast"),
+           # the boundary configuration n = 7, t = 3 with wrong Feldman commitments in step 4: the only runs in
+           # which Reconstruct interpolates four points (seeded change C15a)
+           ("dkg", {"quick": 3, "thorough": 12}, ["--kind", "gen", "--n", "7", "--t", "3", "--dev", "7", "--first", "20", "--par", "4"], "fast"),
            ("cgjkr", {"quick": 12, "thorough": 36}, ["--kind", "gen", "--par", "4"], "fast")],
     obligations=[("Tmcg.C15." + n, "full") for n in ["refresh_keeps_secret", "refresh_keeps_key", "refresh_run_keeps_secret", "rvShare_checked",
                                                    "rv_share_matches_commitments", "gen_key_matches_secret", "xqual_agree", "honest_in_xqual"]]
